@@ -45,6 +45,8 @@ def obligations(tier):
                 continue
             if tier == "quick" and ("ADX" in (a, b) or "aroon" in (a, b)) and not ({a, b} & {"SMA", "TR", "ATR"}):
                 continue
+            if tier == "quick" and b == "ADX":
+                continue   # B also processes the extra candle appended after A's removal: ADX as bystander is thorough-only
             if tier == "quick" and (ha or hb) and (ia + 2 * ib) % 5 != 0 and not ("ADX" in (a, b) or "aroon" in (a, b)):
                 continue   # quick: every value-branching indicator meets a rotating fifth of the others, in both roles
             n = max(aw, bw) + (2 if (ha or hb) else 3)
@@ -55,6 +57,14 @@ def obligations(tier):
     for (a, akw), (b, bkw) in NAME_RELATIONS:
         n = 6
         obs.append(Ob(f"names: A={spec_name(('ind', a, akw))} B={spec_name(('ind', b, bkw))}/n={n}", dict(A=[a, akw], B=[b, bkw], n=n), CFG, weight=50, budget_s=900))
+    # both members on the same collapsing timeframe: they share one candle manager and one candle list
+    shared = [(("SMA", dict(period=2)), ("EMA", dict(period=2))), (("EMA", dict(period=2)), ("SMA", dict(period=2))), (("ATR", dict(period=2)), ("BBANDS", dict(period=2))),
+              (("MACD", dict(fast_period=2, slow_period=3, signal_period=2)), ("WMA", dict(period=2))), (("VWAP", dict()), ("TR", dict()))]
+    for (a, akw), (b, bkw) in shared:
+        for tfa, tfb in (("T2", "T2"), ("T2", "T3"), (None, "T2")):
+            n = 7
+            obs.append(Ob(f"shared-timeframe {tfa}/{tfb}: A={spec_name(('ind', a, akw))} B={spec_name(('ind', b, bkw))}/n={n}",
+                          dict(A=[a, dict(akw, **({"timeframe": tfa} if tfa else {}))], B=[b, dict(bkw, **({"timeframe": tfb} if tfb else {}))], n=n), CFG, weight=60, budget_s=900))
     return obs
 
 
@@ -69,13 +79,18 @@ def own(ctx, ind, alone_snapshot):
 def run(ctx, P):
     _, _, Candle, _, Hexital = lib()
     (a, akw), (b, bkw), n = P["A"], P["B"], P["n"]
-    cs = mk_candles(ctx, n)
+    cs_all = mk_candles(ctx, n + 1)
+    cs, later = cs_all[:n], cs_all[n]          # `later`: one more candle appended after A has been removed
     mk = lambda name, kw: build(name, dict(kw))
+    alone_later = Hexital("alone", clone(cs), [mk(b, bkw)])
+    alone_later.calculate()
+    alone_later.append(clone([later])[0])
+    ref_later = alone_later.indicator(list(alone_later.indicators)[0]).as_list()
     alone = Hexital("alone", clone(cs), [mk(b, bkw)])
     alone.calculate()
     bname = list(alone.indicators)[0]
     ref_list = alone.indicator(bname).as_list()
-    ref_snap = [dict(ind=_cp(c.indicators), sub=_cp(c.sub_indicators)) for c in alone.candles()]
+    ref_snap = [dict(ind=_cp(c.indicators), sub=_cp(c.sub_indicators)) for c in alone.indicator(bname).candles]
     ctx.observe("B-alone", ref_list)
     a_alone = Hexital("a", clone(cs), [mk(a, akw)])
     a_alone.calculate()
@@ -87,6 +102,8 @@ def run(ctx, P):
     def check(label, hx):
         ctx.equal(f"B.as_list {label}", hx.indicator(bname).as_list(), ref_list)
         ctx.equal(f"B-entries {label}", own(ctx, hx.indicator(bname), ref_snap), ref_snap)
+        ctx.equal(f"Hexital.reading(B) {label}", hx.reading(bname), ref_list[-1])
+        ctx.equal(f"Hexital.reading_as_list(B) {label}", hx.reading_as_list(bname), ref_list)
 
     for order in ("A-first", "B-first"):
         members = [mk(a, akw), mk(b, bkw)] if order == "A-first" else [mk(b, bkw), mk(a, akw)]
@@ -106,6 +123,10 @@ def run(ctx, P):
         check(f"after remove_indicator(A) ({order})", hx)
         hx.calculate()
         check(f"after remove_indicator(A)+calculate ({order})", hx)
+        hx.append(clone([later])[0])          # B must still be fed after A is gone
+        ctx.equal(f"B keeps receiving candles after remove_indicator(A) ({order})", hx.indicator(bname).as_list(), ref_later)
+        ctx.equal(f"Hexital.reading_as_list(B) after remove_indicator(A)+append ({order})", hx.reading_as_list(bname), ref_later)
+        ctx.equal(f"Hexital.reading(B) after remove_indicator(A)+append ({order})", hx.reading(bname), ref_later[-1])
     # A added later to a running Hexital
     hx = Hexital("hx", clone(cs), [mk(b, bkw)])
     hx.calculate()
@@ -116,7 +137,7 @@ def run(ctx, P):
 
 
 META = dict(
-    bounds=dict(quick="all ordered pairs of the non-branching catalogue indicators, each value-branching one (RSI, ADX, Aroon, ...) against a rotating fifth of the others in both roles (smallest periods), plus 16 pairs with a name relation; n = warm-up+2..3 candles; both registration orders; purge / recalculate / remove_indicator / add_indicator aimed at A",
+    bounds=dict(quick="all ordered pairs of the non-branching catalogue indicators, each value-branching one (RSI, ADX, Aroon, ...) against a rotating fifth of the others in both roles (smallest periods), plus 16 pairs with a name relation and 18 pairs sharing (or not) a collapsing timeframe T2/T3; n = warm-up+2..3 candles; both registration orders; purge / recalculate / remove_indicator / add_indicator aimed at A",
                 thorough="adds branching x branching pairs (except ADX/Aroon) and period-3 variants"),
     stubs=["exact real arithmetic, uninterpreted rounding and products"],
     assumptions=["pairs have distinct top-level names and neither takes the other as input"],
